@@ -135,6 +135,28 @@ Theorem C19_no_reuse_headers :
 Proof. exact load_no_reuse_headers. Qed.
 Print Assumptions C19_no_reuse_headers.
 
+(* The same for any classification F / R / N of header sets (forbids storing / demands revalidation /
+   no freshness information) that the library respects — this is the form that covers the header
+   sets the model knows by number only (PRaw: other letter case, white space, quoted arguments,
+   several Cache-Control lines, joined by the loader since f797550): there F, R, N are the RFC verdict
+   recorded with each table row, and the three premises are checked on the recorded table every run. *)
+Theorem C19_no_reuse_verdict :
+  forall fuel cfg (F R N : policy -> Prop) ops u k d st',
+  (forall u code b p t, ~ In (Serve u (RResp code b p (Some t))) ops) ->
+  (forall p, F p -> cc_store cfg p = false) ->
+  (forall p, R p -> cc_nocache cfg p = true) ->
+  (forall p, N p -> cc_lifetime cfg p = None) ->
+  load fuel cfg (run fuel cfg ops) u = (st', Ok d) ->
+  route_of cfg u = ToHttp k ->
+  assoc String.eqb k (embedded cfg) = None ->
+  (forall pre u0 post p,
+     ops = pre ++ Load u0 :: post -> route_of cfg u0 = ToHttp k ->
+     served pre k = RResp 200 (BJson d) p None -> F p \/ R p \/ N p) ->
+  exists p, served ops k = RResp 200 (BJson d) p None /\
+            reqlog st' = (CHttp, k, elapsed ops, RResp 200 (BJson d) p None) :: reqlog (run fuel cfg ops).
+Proof. exact load_no_reuse_verdict. Qed.
+Print Assumptions C19_no_reuse_verdict.
+
 (* Failed responses (transport error, status other than 200, body that is not JSON) are never
    cached and never returned: while the origin's answer at the key of u is not a 200/JSON response,
    a load of u leaves the cache as it is and returns an error, or a cached-and-fresh / embedded
